@@ -1,9 +1,9 @@
 (* C10 — shared codecs and schema caches are safe for concurrent use.
    Only statements, closed by [exact lemma], with Print Assumptions beneath. *)
 From Coq Require Import String List NArith Bool.
-From J5V.model Require Import Conc ConcSites ConcCorr ConcRace.
+From J5V.model Require Import Conc ConcSites ConcCorr ConcRace ConcStatement.
 From J5V.gen Require ConcGen.
-From J5V.proofs Require Import ConcProofs ConcInvProofs ConcTermProofs ConcMainProofs ConcRaceProofs.
+From J5V.proofs Require Import ConcProofs ConcInvProofs ConcTermProofs ConcMainProofs ConcRaceProofs ConcFullProofs.
 Import ListNotations.
 Local Open Scope N_scope.
 
@@ -23,6 +23,21 @@ Print Assumptions C10_cache_methods_agree.
 Theorem C10_placeholder_functions_agree : ConcGen.placeholder_functions = expected_placeholder_functions.
 Proof. exact placeholder_functions_agree. Qed.
 Print Assumptions C10_placeholder_functions_agree.
+
+(* the cache is the only mutable state on the encode/decode path *)
+Theorem C10_no_other_state :
+  (ConcGen.cache_fields = expected_cache_fields /\
+   ConcGen.reflector_fields = expected_reflector_fields /\
+   ConcGen.codec_fields = expected_codec_fields) /\
+  (ConcGen.codec_pkg_vars = expected_codec_pkg_vars /\
+   ConcGen.reflect_pkg_vars = expected_reflect_pkg_vars /\
+   ConcGen.schema_pkg_vars = expected_schema_pkg_vars /\
+   ConcGen.codec_pkg_var_writers = [] /\ ConcGen.reflect_pkg_var_writers = [] /\ ConcGen.schema_pkg_var_writers = []) /\
+  (only_calls ConcGen.reflector_methods = true /\ ConcGen.reflector_package_vars = []) /\
+  (only_calls ConcGen.codec_methods = true /\ ConcGen.codec_package_vars = ["Global"%string]) /\
+  ConcGen.codec_entry_points = expected_codec_entry_points.
+Proof. exact no_other_state. Qed.
+Print Assumptions C10_no_other_state.
 
 (* ---- the guarded discipline: for ALL type universes (cyclic or not), ALL lists of
    calls per thread, ANY number of threads and ALL schedules ------------------------ *)
@@ -98,40 +113,10 @@ Proof.
   destruct t as [|[|[|t]]]; cbn; try tauto. exfalso. Lia.lia.
 Qed.
 
-(* ---- the property at full strength ------------------------------------------------------ *)
-(* logic level: for every type universe, every list of calls per thread (any number of
-   threads), every depth of observation —
-   every schedule: the completed calls returned their solo results; while a call is
-   outstanding some thread can take a state-changing step (no deadlock);
-   every fair schedule of fuel_bound rounds completes all calls with their solo results *)
-Definition C10_logic_statement (d : disc) : Prop :=
-  forall k g calls,
-    (forall sched t, exists j, nth t (results (run d k g calls sched)) [] =
-                               map (result_solo k g) (firstn j (nth t calls []))) /\
-    (forall sched, all_done (run d k g calls sched) = false ->
-       exists t, (t < length calls)%nat /\ gstep d k g t (run d k g calls sched) <> run d k g calls sched) /\
-    (forall rounds, Forall (covers (length calls)) rounds -> (fuel_bound g calls <= length rounds)%nat ->
-       all_done (run d k g calls (concat rounds)) = true /\
-       results (run d k g calls (concat rounds)) = map (map (result_solo k g)) calls).
-
-(* memory level: the accesses of any run — to the schema map, to SchemaCache.registered,
-   to the To field of every RefSchema, inside Schema and by the callers that walk the
-   returned schema afterwards — are free of data races under happens-before = program
-   order + "Unlock is synchronized before a later Lock" (the Go memory model's rule for
-   sync.Mutex), and every To field is written once *)
-Definition C10_memory_statement (d : disc) : Prop :=
-  forall k g calls sched,
-    race_free (events d k g calls sched) /\ write_once (events d k g calls sched).
-
-Definition C10_full_statement (d : disc) : Prop := C10_logic_statement d /\ C10_memory_statement d.
-
+(* ---- the property at full strength: C10_logic_statement, C10_memory_statement and
+   C10_full_statement are defined in model/ConcStatement.v ---------------------------- *)
 Theorem C10_logic_guarded : C10_logic_statement Guarded.
-Proof.
-  intros k g calls. split; [|split].
-  - intros sched t. apply guarded_results.
-  - intros sched H. destruct (guarded_progress k g calls sched H) as (t & H1 & _ & H3). exists t. split; assumption.
-  - intros rounds. apply guarded_fair_complete.
-Qed.
+Proof. exact logic_guarded. Qed.
 Print Assumptions C10_logic_guarded.
 
 (* PARTIAL with respect to the Go program: this is a theorem about the model's access
@@ -141,24 +126,17 @@ Print Assumptions C10_logic_guarded.
    sequentially consistently, hence no torn reads and no 'concurrent map writes') is not
    formalised — the model's map operations are atomic by construction. *)
 Theorem C10_memory_guarded_partial : C10_memory_statement Guarded.
-Proof. exact guarded_race_free. Qed.
+Proof. exact memory_guarded. Qed.
 Print Assumptions C10_memory_guarded_partial.
 
 (* the full statement holds of the guarded discipline, which is the one the code follows *)
 Theorem C10_full_for_code : C10_full_statement code_disc.
-Proof. rewrite code_disc_guarded. split; [exact C10_logic_guarded | exact guarded_race_free]. Qed.
+Proof. exact full_for_code. Qed.
 Print Assumptions C10_full_for_code.
 
 (* and fails without the lock, on both levels *)
 Theorem C10_full_unguarded_refuted : ~ C10_logic_statement Unguarded /\ ~ C10_memory_statement Unguarded.
-Proof.
-  split.
-  - intros H. destruct (H 3%nat w1_graph w1_calls) as (H1 & _).
-    destruct (H1 w1_sched 1%nat) as (j & Hj).
-    destruct unguarded_refuted_root as (E & _). rewrite E in Hj.
-    destruct j as [|j]; cbn in Hj; [discriminate|]. inversion Hj.
-  - intros H. apply unguarded_has_race. apply H.
-Qed.
+Proof. exact full_unguarded_refuted. Qed.
 Print Assumptions C10_full_unguarded_refuted.
 
 (* ---- without the lock the property fails ----------------------------------- *)
